@@ -8,6 +8,7 @@ and `Key ls loc = marker ++ enc ls ++ loc` a resource-record key of the v2 layou
 -/
 import DnsVerif.Proofs.RevOrder
 import DnsVerif.Proofs.ServeV2
+import DnsVerif.Proofs.CtxCache
 
 namespace DnsVerif.Props.C02
 open DnsVerif DnsVerif.Rdb DnsVerif.Name DnsVerif.RevOrder DnsVerif.Serve DnsVerif.ServeV2
@@ -394,5 +395,172 @@ theorem featuresKey_above (n : List Bytes) (hn : ∀ l ∈ n, l.length < 95) (lo
     show bytesLt ([0, 111] ++ (tok x ++ pack n ++ loc)) ([0, 111] ++ [95, 102, 101, 97, 116, 117, 114, 101, 115]) = true
     rw [bytesLt_append_left]
     exact bytesLt_cons_of_lt (by rw [h1]; exact hx) _ _
+
+/-! ### 5. the per-request context cache of the RocksDB reader
+
+`dnsdata/rdb/rdb.go`: `Context.cache`, `RDB.get`, `RDB.FindClosest`, `Context.update`, transcribed in
+`Model/CtxCache.lean` over the abstract store; helper lemmas in `Proofs/CtxCache.lean`. A context
+lives for one request. The cache is meant to be invisible: every lookup through it should return
+what the same lookup returns through a fresh context. It is NOT (two defects of the code, both
+reproduced on the real code by the `ctx` correspondence op):
+
+* an exact lookup of a key that does not exist stores "found the key itself, no data" under that
+  key, and a later closest-key lookup of the same key returns this entry instead of the greatest
+  smaller key (`cache_transparent_false`);
+* `get` stores the caller's key slice in the entry without copying it; a caller that reuses the
+  buffer (`sortedDataReader.ForEachResourceRecord` does) changes the entry's key, and a later exact
+  lookup of the same key is answered "no such key" (`get_ignores_callers_buffer_false`).
+
+What is true: exact lookups by callers that leave their buffer alone are always right
+(`cache_exact_lookups_right`); the whole run is right when no closest-key lookup of a key follows an
+exact lookup of that same key while the key does not exist (`cache_transparent_partial`), exactly
+when `safeFrom` holds (`cache_transparent_iff`); with the proposed repair always
+(`cache_transparent_repaired`); one request's lookups have the safe shape (`request_shape_transparent`, `tryForEach_on_clean_cache`). -/
+
+section ContextCache
+open DnsVerif.CtxCache
+
+/-- FULL STATEMENT (false for the code as it is): every lookup of every run through one fresh context,
+by callers that leave their key buffers alone, returns the uncached result -/
+def cache_transparent : Prop :=
+  ∀ (s : Store) (ls : List Lookup), (∀ l ∈ ls, l.plain = true) → runCached s ls = runUncached s ls
+
+/-- witness: the database holds the key `01`; exact lookup of `02` (absent), then closest-key lookup
+of `02`: the cache answers "found `02`, no data", the database "found `01`" -/
+theorem cache_transparent_false : ¬ cache_transparent := by
+  intro h
+  have := h [([1], [[5]])] [.exact [2], .closest [2]] (by decide)
+  revert this
+  decide +kernel
+
+/-- no closest-key lookup of a key follows an exact lookup of that same key unless the key exists -/
+def NoClosestAfterAbsentExact (s : Store) (ls : List Lookup) : Prop :=
+  ∀ pre k post, ls = pre ++ Lookup.closest k :: post → Lookup.exact k ∈ pre → Present s k
+
+/-- the strongest simple true version: for every store and every run of lookups (exact and closest,
+any keys, any repetitions) in which no closest-key lookup follows an exact lookup of the same ABSENT
+key, every result through one context equals the uncached result -/
+theorem cache_transparent_partial (s : Store) (ls : List Lookup) (hplain : ∀ l ∈ ls, l.plain = true)
+    (h : NoClosestAfterAbsentExact s ls) : runCached s ls = runUncached s ls :=
+  runFrom_transparent s ls [] (fun _ => False) (inv_nil s _) hplain
+    fun pre k post hls hk => h pre k post hls (hk.resolve_left id)
+
+/-- the hypothesis is decidable: `okSeq` (a left-to-right scan remembering the absent keys looked up
+exactly) -/
+theorem noClosestAfterAbsentExact_of_check (s : Store) (ls : List Lookup) (h : okSeq s [] ls = true) :
+    NoClosestAfterAbsentExact s ls :=
+  fun pre k post hls hk => okSeq_sound s ls [] h pre k post hls (Or.inr hk)
+
+/-- the hypothesis cannot be dropped for any absent key: exact, then closest lookup of an absent key
+always differs from the uncached run -/
+theorem cache_transparent_partial_sharp (s : Store) (k : Bytes) (hk : ¬ Present s k) :
+    runCached s [.exact k, .closest k] ≠ runUncached s [.exact k, .closest k] := by
+  intro h
+  have h2 : (runCached s [.exact k, .closest k])[1]? = (runUncached s [.exact k, .closest k])[1]? := by rw [h]
+  have hl : lookup (cget s [] k).1 k = some ⟨k, []⟩ := by
+    unfold cget
+    simp only [lookup_nil]
+    rw [lookup_cupdate, if_pos (Or.inl rfl), get_eq_nil_of_absent hk]
+  have hc : (cfindClosest s (cget s [] k).1 k).2 = some (k, []) := by
+    unfold cfindClosest; rw [hl]
+  have e1 : (runCached s [.exact k, .closest k])[1]? = some (Result.found k []) := by
+    show some (Result.ofClosest (cfindClosest s (cget s [] k).1 k).2) = _
+    rw [hc]; rfl
+  have e2 : (runUncached s [.exact k, .closest k])[1]? = some (Result.ofClosest (s.seekForPrev k)) := by
+    show some (uncached s (.closest k)) = _
+    rw [uncached_closest]
+  rw [e1, e2] at h2
+  cases hs : s.seekForPrev k with
+  | none => rw [hs] at h2; cases h2
+  | some r =>
+    obtain ⟨f, d⟩ := r
+    rw [hs] at h2
+    have : f = k := by
+      have := Option.some.inj h2
+      unfold Result.ofClosest at this
+      cases this; rfl
+    exact hk (this ▸ seekForPrev_key_mem hs)
+
+/-- THE EXACT CONDITION. For an absent key `k`, what the cache holds under `k` after a run depends only
+on the lookups of `k` itself, and only on the first that stores something (`kstate`: an exact
+lookup stores the poisoned entry, a closest-key lookup that finds a key a clean one). A run is
+transparent if and only if every closest-key lookup in it is of a key that exists or that the run
+before it has not poisoned (`safeFrom`, decidable). -/
+theorem cache_transparent_iff (s : Store) (ls : List Lookup) (hplain : ∀ l ∈ ls, l.plain = true) :
+    runCached s ls = runUncached s ls ↔ safeFrom s [] ls = true :=
+  runFrom_transparent_iff s ls [] [] ((inv_nil s _)) (fun _ _ => rfl) hplain
+
+/-- the proposed repair (`FindClosest` ignores cached entries without data, `get` stores a copy of
+the key): every run of lookups — any kinds, keys, repetitions, reused buffers — through one
+context returns the uncached results -/
+theorem cache_transparent_repaired (s : Store) (ls : List Lookup) :
+    runCachedR s ls = runUncached s ls :=
+  runFromR_transparent s ls [] (inv_nil s _)
+
+/-- "must not make an absent key look present": exact lookups are answered correctly at every position
+of every run, whatever was looked up before -/
+theorem cache_exact_lookups_right (s : Store) (ls : List Lookup) (hplain : ∀ l ∈ ls, l.plain = true)
+    (i : Nat) (k : Bytes) (h : ls[i]? = some (Lookup.exact k)) :
+    (runCached s ls)[i]? = some (Result.data (s.get k)) :=
+  runFrom_exact_right s ls [] (fun _ => False) (inv_nil s _) hplain i k h
+
+/-- `sortedDataReader.TryForEach` (closest-key lookup, then the exact lookup of the key when it was
+found): on a cache without poisoned entries it returns what `Serve.findGo`'s `tryForEach` computes
+on the database and leaves the cache without poisoned entries. Every lookup of `find`
+(`IsAuthoritative`, `FindAnswer`), of `findMapInSortedData` and of `GetLocationByMap` is such a
+`TryForEach` or a bare closest-key lookup (`closest_on_clean_cache`). -/
+theorem tryForEach_on_clean_cache (s : Store) (c : Cache) (h : Clean s c) (k : Bytes) :
+    (ctryForEach s c k).2 = tryForEach s k ∧ Clean s (ctryForEach s c k).1 :=
+  ctryForEach_clean h k
+
+theorem closest_on_clean_cache (s : Store) (c : Cache) (h : Clean s c) (k : Bytes) :
+    (cfindClosest s c k).2 = s.seekForPrev k ∧ Clean s (cfindClosest s c k).1 :=
+  cfindClosest_clean h k
+
+/-- one request: first the lookups of `FindLocation`, `IsAuthoritative` (twice for DS) and `FindAnswer`,
+among which exact lookups are only of keys that exist; then exact lookups only (`FindSOA`, `GetNs`,
+`AdditionalSectionForRecords`). Such a run is transparent. -/
+theorem request_shape_transparent (s : Store) (A B : List Lookup)
+    (hplain : ∀ l ∈ A ++ B, l.plain = true)
+    (hA : ∀ k, Lookup.exact k ∈ A → Present s k) (hB : ∀ l ∈ B, ∃ k, l = Lookup.exact k) :
+    runCached s (A ++ B) = runUncached s (A ++ B) :=
+  cache_transparent_partial s (A ++ B) hplain (noClosestAfterAbsentExact_of_shape hA hB)
+
+/-- FULL STATEMENT (false for the code as it is): what a caller does with its key buffer after `get`
+has returned does not matter -/
+def get_ignores_callers_buffer : Prop :=
+  ∀ (s : Store) (k k' : Bytes),
+    runCached s [.exactReused k k', .exact k] = runUncached s [.exactReused k k', .exact k]
+
+/-- witness: the key `01 aa` exists; the caller looks it up, overwrites its buffer with `01 00` (the
+untagged key, as `ForEachResourceRecord` does), and the next exact lookup of `01 aa` finds nothing -/
+theorem get_ignores_callers_buffer_false : ¬ get_ignores_callers_buffer := by
+  intro h
+  have := h [([1, 0xaa], [[5]])] [1, 0xaa] [1, 0]
+  revert this
+  decide +kernel
+
+/-! non-vacuity: a run with repeated keys, closest after exact of a PRESENT key, exact after closest
+of an absent key, a closest-key lookup below every key; the hypothesis is decided by `okSeq` -/
+example :
+    let s : Store := [([1], [[5]]), ([3], [[6], [8]])]
+    let ls : List Lookup := [.closest [2], .exact [2], .exact [3], .closest [3], .closest [0], .exact [9], .exact [2]]
+    NoClosestAfterAbsentExact s ls ∧ (∀ l ∈ ls, l.plain = true) ∧
+      runCached s ls = [.found [1] [[5]], .data [], .data [[6], [8]], .found [3] [[6], [8]], .invalid,
+        .data [], .data []] :=
+  ⟨noClosestAfterAbsentExact_of_check _ _ (by decide +kernel), by decide, by decide +kernel⟩
+
+/-- the simple hypothesis is sufficient, not necessary: when the FIRST lookup of an absent key is a
+closest-key lookup that finds something, its (clean) entry protects the key -/
+example :
+    let s : Store := [([1], [[5]])]
+    let ls : List Lookup := [.closest [2], .exact [2], .closest [2]]
+    ¬ NoClosestAfterAbsentExact s ls ∧ safeFrom s [] ls = true ∧ runCached s ls = runUncached s ls := by
+  refine ⟨fun h => ?_, by decide +kernel, by decide +kernel⟩
+  have := h [.closest [2], .exact [2]] [2] [] rfl (by simp)
+  revert this
+  decide +kernel
+
+end ContextCache
 
 end DnsVerif.Props.C02
